@@ -36,3 +36,21 @@ extern "C" void c19_Mantis8_swapModes(void *m) { ((Mantis8 *)m)->swapModes(); }
     extern "C" void c19_CTR_##K##_encrypt(void *m, uint8_t *o, const uint8_t *i, unsigned n) { ((CTR<K> *)m)->encrypt(o, i, n); } \
     extern "C" void c19_CTR_##K##_clear(void *m) { ((CTR<K> *)m)->clear(); }
 WRAP_CTR(Skinny128_128) WRAP_CTR(Skinny128_256) WRAP_CTR(Skinny128_384)
+
+// A trivial 16-byte block cipher (one xor layer), so that the glue of CTRCommon can be driven over requests of thousands of
+// bytes at no cost for the cipher itself: the wrapper must not care which BlockCipher it is given.
+class VhXor16 : public BlockCipher
+{
+public:
+    VhXor16() { for (int i = 0; i < 16; i++) k[i] = 0; }
+    virtual ~VhXor16() {}
+    size_t blockSize() const { return 16; }
+    size_t keySize() const { return 16; }
+    bool setKey(const uint8_t *key, size_t len) { if (len != 16) return false; for (int i = 0; i < 16; i++) k[i] = key[i]; return true; }
+    void encryptBlock(uint8_t *output, const uint8_t *input) { for (int i = 0; i < 16; i++) output[i] = (uint8_t)(input[i] ^ k[i] ^ (uint8_t)(i * 17 + 3)); }
+    void decryptBlock(uint8_t *output, const uint8_t *input) { encryptBlock(output, input); }
+    void clear() { for (int i = 0; i < 16; i++) k[i] = 0; }
+private:
+    uint8_t k[16];
+};
+WRAP_CTR(VhXor16)
